@@ -70,7 +70,11 @@ func check(c Case) pbt.Verdict {
 			var fn *core_domain.CodeFunction
 			for k := range ds.Functions {
 				if ds.Functions[k].Name == f.Name && ds.Functions[k].Position.StartLine == f.DeclLine {
-					fn = &ds.Functions[k]
+					// overloads may share a line: the start column of a class method or
+					// constructor is the column of its name
+					if fn == nil || ds.Functions[k].Position.StartLinePosition == f.NameCol {
+						fn = &ds.Functions[k]
+					}
 				}
 			}
 			if fn == nil {
